@@ -101,6 +101,8 @@ CHECKS = {
         props=['C09'], opts='props=0 q=8',
         quick=[mc(2, [2, 3, 5, 7, 8], DEL + ['add_cell_closed'], DEL + GC + ['add_cell_closed'] + BUT, BUSets='BUOn'),
                mc(1, [2, 3, 5, 7, 8], [], SWAP, Modes='ModesDefault', BUSets='BUOn'),
+               # fans built or modified while some incidence kind is off, then switched on (the reorder pass)
+               mc(2, [3, 7, 8], BUT + ['delete_cell'], BUT, Modes='ModesTwo', BUSets='BUAll'),
                mc(3, [3, 7, 8], ['delete_cell', 'add_cell_closed'], ['delete_cell', 'delete_face', 'add_cell_closed'], Modes='ModesTwo', BUSets='BUOn')],
         thorough=[mc(3, [2, 3, 5, 7, 8], DEL + GC + ['add_cell_closed'], DEL + GC + ['add_cell_closed'] + BUT, Modes='ModesTwo', BUSets='BUOn'),
                   mc(2, [2, 3, 5, 7, 8, 9, 10], DEL, SWAP + BUT, BUSets='BUOn'),
